@@ -48,6 +48,9 @@ def all_dicts(v):
 
 def run(ctx):
     from oslo_utils import strutils
+    from vf import purity
+    _rec = purity.Recorder(strutils, ['mask_dict_password'], every=1)
+    _rec.__enter__()
     quick = ctx.quick
     res = tlc.run('MC_Masking', 'MC_Masking_tree.cfg', workdir=ctx.work, workers=1,
                   stdout_path=os.path.join(ctx.work, 'tree.out'), timeout=600)
@@ -211,6 +214,8 @@ def run(ctx):
                               'flatten_dict_to_keypairs(%r, %r) -> %r, specification %r' % (arg, sep, got, want))
     ctx.cov['evaluations'] += f
     ctx.stage('flatten_dict', cases=f)
+    _rec.__exit__()
+    _rec.replay(ctx, 'c08')
     # binding self-test: an in-place implementation must be exposed
     def inplace(dictionary, secret='***'):
         for k, v in dictionary.items():
